@@ -51,14 +51,16 @@ Proof.
   - unfold time_ok in Ht. bool_hyps. eexists. split; [reflexivity|]. split; [apply le_length|].
     unfold read_time. eapply decodes_bind.
     + apply decodes_read_n'. unfold blen. rewrite le_length. reflexivity.
-    + cbv zeta. rewrite unle_le, pow8_8. unfold time_offset.
-      set (q := Z.quot ns 100).
-      assert (Hq : -92233720368547759 <= q <= 92233720368547759) by (unfold q; lia).
-      rewrite (Z.mod_small (q + 116444736000000000)) by lia.
-      replace (q + 116444736000000000 =? 0) with false by (symmetry; apply Z.eqb_neq; lia).
-      replace (q + 116444736000000000 - 116444736000000000) with q by lia.
-      rewrite Z.mul_mod_idemp_l by lia.
-      rewrite <- pow8_8. rewrite to_signed_mod; [apply decodes_ret|lia|rewrite pow8_8; unfold q; lia].
+    + cbv zeta. rewrite unle_le. cbn [norm_time]. cbv zeta. set (q := ns / 100) in *.
+      assert (Hs : to_signed 8 ((q + time_offset) mod pow8 8) = q + time_offset).
+      { apply to_signed_mod; [lia|]. rewrite pow8_8. lia. }
+      assert (Hz : ((q + time_offset) mod pow8 8 =? 0) = (q + time_offset =? 0)).
+      { destruct (q + time_offset =? 0) eqn:E.
+        - apply Z.eqb_eq in E. rewrite E. reflexivity.
+        - apply Z.eqb_neq in E. apply Z.eqb_neq. intros Hm. rewrite Hm in Hs. cbn in Hs. lia. }
+      rewrite Hz. destruct (q + time_offset =? 0); [cbn [orb]; apply decodes_ret|]. cbn [orb]. rewrite Hs.
+      replace ((q + time_offset - time_offset) * 100) with (q * 100) by lia.
+      destruct (q * 100 =? zero_time_ns); apply decodes_ret.
   - eexists. split; [reflexivity|]. split; [apply le_length|].
     unfold read_time. eapply decodes_bind.
     + apply decodes_read_n'. unfold blen. rewrite le_length. reflexivity.
